@@ -37,6 +37,25 @@ CLAIMED = {
     },
 }
 
+# Added by the fourth round of seeded changes (DESIGN.md 7.6).
+ROUND4 = {
+    "C01": " Also: the rendered resource arriving pre-annotated with another composition-resource-name (both composers); a fault-free history that never goes quiescent is an I3 violation.",
+    "C02": " Also: the XRD sites run on established CRDs (so the XRD's status records its controllers), and a target that changes hands to a foreign controller after the owner completed two reconciles.",
+    "C03": " Also: desired resources that are equal in all but namespace, kind or name (explicitly named), every subset desired and then every subset.",
+    "C04": " Also: a requirement whose selector has two labels, with resources carrying only one of them.",
+    "C05": " Also: applies answered 404 (namespace missing) and 403 besides 422, for both composers.",
+    "C07": " Also: top-level user fields named like nested members of the machinery (name, type, namespace, kind, labels, metadata, matchLabels / message, reason, type, status, lastPublishedTime).",
+    "C09": " Also: the XR replaced by a namesake (new UID, own secret) while its pipeline runs or before any later API call of that reconcile; a P&T composed resource rejected as invalid while a secret of the name its template writes to exists.",
+    "C10": " Also: two templates leading with the same patch set, slices with spare capacity (as the API client decodes them).",
+    "C11": " Also: earlier CRDs owned by nobody or by the XRD as a plain (non-controller) owner.",
+    "C12": " Also: scenario faithful-capture - every ordered pair of an alphabet of 8 Composition specs, one per part of the API (patch policies and merge options, patch sets, all transforms, combine, connection details and readiness checks, pipeline input and credentials, top-level settings), revision spec compared JSON for JSON.",
+    "C15": " Also: the `crossplane xpkg build` command itself (kong parsing, path resolution, filter wiring, real files) on 63 file subsets x examples root {below the package root, elsewhere, absent} x ignore patterns, with file names that contain the names of what is excluded.",
+    "C16": " Also: a variant whose images hold two objects that differ only in kind (a provider's mutating and validating webhook configurations).",
+    "C17": " Also: dependencies declared by type (Provider, Configuration, Function) and by apiVersion+kind; the package created must be of that kind.",
+    "C19": " Also: the composite's apply of a composed Usage (real applicator with the composer's apply options) as an event, and dry-run DELETE requests.",
+    "C20": " Also: the webhook service's DNS names for every service x namespace ending of an alphabet (certificates issued and verified for six of them); packages installed under names that are not DNS labels. The initializer's direct client is never answered 404 for an existing object.",
+}
+
 CLAIMED.update({
     "C10": {
         "text": "Exhaustive products over a 42-value JSON alphabet (every JSON type, int64/float boundaries, nested), 108 transform configurations (every transform type and parameter corner incl. negative/out-of-range regexp groups, malformed formats), chains of two, 7 patch types x 13 from-paths x 16 to-paths x 13 policies/merge options, combine patches, render/metadata cases: Resolve/Apply never panic, are deterministic and pure (source deep-equal before/after), optional-missing is a no-op and required-missing an error, results agree with an independent reference of each transform's documented meaning and the convert round-trip laws; reconciler-level scenarios show a composed resource whose from-XR patch, metadata or name generation failed is not written while its sibling is, and that the merge options of one template's patches do not change what is applied for the next template.",
@@ -157,7 +176,7 @@ def main():
                 "evidence_file": f"evidence/{cid}.json",
                 "replay_cmd_template": "./vcheck replay {path}",
                 "engine": "explore",
-                "level_claimed": {"category": LEVEL[cid], "text": c["text"], "design_ref": f"DESIGN.md section 3 {cid}"},
+                "level_claimed": {"category": LEVEL[cid], "text": c["text"] + ROUND4.get(cid, ""), "design_ref": f"DESIGN.md section 3 {cid}"},
                 "level_note": c.get("note", COMMON_NOTE),
                 "technique": c["technique"],
             })
